@@ -50,10 +50,12 @@ Definition DNS_CFWHN : Z := 1.
 Definition DEFAULT_MAX_RETRY : Z := 3.
 (* network topology summary: 3 = HighestTierAllowed and HighestTierName both set *)
 Definition NT_CONFLICT : Z := 3.
+Definition ARGS_UNPARSABLE : Z := 99.
 
 (* ---------- abstract objects ---------- *)
 Record policy := mkPolicy {
-  p_action : Z; p_event : Z; p_events : list Z; p_exit : option Z }.
+  p_action : Z; p_event : Z; p_events : list Z; p_exit : option Z;
+  p_timeout : Z }.   (* opaque: admission never branches on it, DeepEqual sees it *)
 Record part := mkPart { pp_total : Z; pp_size : Z; pp_min : Z; pp_nt : Z }.
 (* pod template: opaque content id (incl. the task's topologyPolicy) + the two
    fields the mutating webhook touches *)
@@ -64,7 +66,9 @@ Record task := mkTask {
   t_deps : option (list Z * Z);        (* DependsOn: nil | (names, iteration) *)
   t_part : option part }.
 Record volume := mkVol { v_mount : Z; v_cname : Z; v_claim : option Z }.
-(* plugin: name, "--master=<task>" argument of the mpi plugin (0 = absent), other args *)
+(* plugin: name, "--master=<task>" argument of the mpi plugin (0 = absent), other
+   args (opaque id; ARGS_UNPARSABLE = the list starts with a flag the mpi plugin's
+   FlagSet rejects, so parsing stops and --master keeps its default) *)
 Record plugin := mkPlugin { pl_name : Z; pl_master : Z; pl_args : Z }.
 Record job := mkJob {
   j_name : Z;                           (* metadata.name, not part of the spec *)
@@ -251,7 +255,7 @@ Definition mpi_plugin (j : job) : option plugin :=
   | Some l => find (fun p => pl_name p =? PL_MPI) l
   end.
 Definition mpi_master_name (p : plugin) : Z :=
-  if pl_master p =? 0 then NAME_MASTER else pl_master p.
+  if (pl_master p =? 0) || (pl_args p =? ARGS_UNPARSABLE) then NAME_MASTER else pl_master p.
 Definition mpi_ok (j : job) : bool :=
   match mpi_plugin j with
   | None => true
